@@ -67,7 +67,26 @@ def shards(tier):
     return out
 
 
+def poison_lists():
+    """Lists whose INTERMEDIATES carry the names that other lists use as inputs (a..e, dotted argument bits, cse's x0/x1).  They are run
+    first in every shard: a transformation that keeps state between calls (a default argument that accumulates, a module-level
+    table) then corrupts the lists that follow in the same process, which are judged against their own meaning."""
+    from sympy import Symbol as S
+    z0, z1, z2 = S("z0"), S("z1"), S("z2")
+    a, b, c, d, e = [S(n) for n in "abcde"]
+    out = [[(a, z0 & z1), (b, ~z0), (c, z0 ^ z2), (d, z1 | z2), (e, ~z1), (S("_ret"), (a ^ b) | (c & d & e))],
+           [(S("x0"), z0 ^ z1), (S("x1"), S("x0") & z2), (S("x2"), ~S("x1")), (S("_ret.0"), S("x0") | S("x2")), (S("_ret.1"), S("x1") ^ z0)]]
+    dotted = []
+    for nm in ("a", "b", "c", "d", "t", "x", "y"):
+        for i in range(4):
+            dotted.append((S("%s.%d" % (nm, i)), (z0 if i % 2 else ~z0) & (z1 if i < 2 else z2)))
+    dotted.append((S("_ret"), S("a.0") ^ S("b.1") ^ S("c.2") ^ S("x.3")))
+    out.append(dotted)
+    return out
+
+
 def cases(shard):
+    yield {"kind": "poison", "key": "poison lists before shard %s" % (sorted((k, str(v)) for k, v in shard.items() if k != "cfg"),)}
     if shard.get("kind2") == "prog":
         for c in progs.prog_cases(shard):
             yield {"kind": "prog", "src": c["src"], "key": "prog|" + c["src"]}
@@ -186,6 +205,17 @@ def run_case(case):
             # the raw list itself reads an undefined symbol (e.g. an unused tuple alias): not an optimizer matter
             return {"status": "skipped", "rows": rows, "nontrivial": False, "outcome": "raw-list-open"}
         rows += r2
+    elif case["kind"] == "poison":
+        rows = 0
+        retcols = []
+        n = 3
+        M = sim.mask(n)
+        inputs = ["z0", "z1", "z2"]
+        lst = []
+        for lst in poison_lists():
+            r2, rc = check_list(lst, inputs, bad)
+            rows += r2
+            retcols += rc
     else:
         tier = case["tier"]
         if case["kind"] == "pool":
